@@ -12,7 +12,8 @@ def showVS (n : Nat) (i : Nat) (v : VS) : String :=
   let ds := (List.range n).filterMap (fun d => (v.del d).map (fun sh => s!"{d}:{sh}"))
   let is := (List.range n).filterMap (fun d => (v.sinfo d).map (fun si => s!"{d}:{si.period}:{si.stake}:{si.height}"))
   let ss := v.slashes.map (fun e => s!"{e.height}:{e.period}:{e.fraction}")
-  s!"V{i}[t={v.tokens} s={v.shares} p={v.period} c={v.cur} o={v.outstanding} m={v.commission} " ++
+  let st := (if v.bonded then "B" else s!"U{v.ubHeight}") ++ (if v.jailed then "J" else "")
+  s!"V{i}[{st} t={v.tokens} s={v.shares} p={v.period} c={v.cur} o={v.outstanding} m={v.commission} " ++
   s!"R({",".intercalate rs}) D({",".intercalate ds}) I({",".intercalate is}) S({",".intercalate ss})]"
 
 def showState (s : State) : String :=
@@ -63,6 +64,8 @@ def parseOp (ws : List String) : Option (Op × Bool) :=
       | "transferFrom", [sp, f, t, v, n] => some (.transferFrom sp f t v n, true)
       | "alloc", [v, a] => some (.alloc v a, false)
       | "slash", [v, p, f] => some (.slash v p f, false)
+      | "jail", [v] => some (.jail v, false)
+      | "unjail", [v] => some (.unjail v, false)
       | _, _ => none
   | [] => none
 
